@@ -175,3 +175,19 @@ Fixpoint cwf_hist (fl : flavour) (n : nat) (ops : list cop) : bool :=
   | [] => true
   | o :: ops' => cwf_op fl n o && cwf_hist fl (cn_after n o) ops'
   end.
+
+(* ---- well-formed MIXED histories (Spec/RegChain.mwf_op): [fls] lists the flavours of the
+   existing registries; an invalidating registry has invalidating bases only, a verifying
+   registry may have bases of either flavour (the persistent site manager over the global
+   registry); rebuild() admitted.  [cwf_hist fl 0] is the homogeneous special case. *)
+Definition cmwf_op (fls : list flavour) (o : cop) : bool :=
+  match o with CReg o' => mwf_op fls o' | CSetSpecBases _ _ => true end.
+
+Definition cfls_after (fls : list flavour) (o : cop) : list flavour :=
+  match o with CReg o' => fls_after fls o' | CSetSpecBases _ _ => fls end.
+
+Fixpoint cmwf_hist (fls : list flavour) (ops : list cop) : bool :=
+  match ops with
+  | [] => true
+  | o :: ops' => cmwf_op fls o && cmwf_hist (cfls_after fls o) ops'
+  end.
